@@ -8,7 +8,7 @@ def gram_d(al, be, ga):
     return 1 - ca * ca - cb * cb - cg * cg + 2 * ca * cb * cg
 
 
-def cell(rng, kind=None, dmin=0.02):
+def cell(rng, kind=None, dmin=0.02, scaled=False):
     """valid cell with Gram factor D >= dmin; kinds: ortho, near, oblique, random"""
     kind = kind or rng.choice(['near', 'oblique', 'random', 'random', 'ortho', 'nearortho', 'special'])
     for _ in range(10000):
@@ -34,6 +34,11 @@ def cell(rng, kind=None, dmin=0.02):
         else:
             al, be, ga = (rng.uniform(20, 160) for _ in range(3))
         if gram_d(al, be, ga) >= dmin:
+            if scaled and rng.random() < 0.12:
+                # the properties quantify over all a, b, c > 0: very small and very large cells (a common factor 1e-3.5 .. 1e3) --
+                # an ABSOLUTE tolerance somewhere in the code (isclose(volume, 0), allclose against zeros) only shows there
+                f = 10.0 ** rng.uniform(-3.5, 3.0)
+                a, b, c = a * f, b * f, c * f
             return [a, b, c, al, be, ga], kind
     raise RuntimeError('cell generator exhausted')
 
